@@ -590,6 +590,9 @@ def run(m, tier):
     r12.title = "a 2003 matcher that skips an optional keyword records it (its 2008 override does, so otherwise the two parsers print different text for the same statement)"
     results.append(r12)
     results.append(r13_printer_agreement(m))
+    results.append(r14_isinstance_overrides(m))
+    from rules import two_roundtrip
+    results.append(two_roundtrip.standards_rule(m, "C17.R15", floor=230))
     expl = ("Decides grammar inclusion at the level at which the 2008 grammar is assembled: every rule and alternative of the linked "
             "2003 registry is still reachable, in the same relative order, in the linked 2008 registry (550 rules); identity tests of "
             "the generic engine also name the 2008 overrides; 2003 code that builds an overridden class by Python name is covered by a "
@@ -706,4 +709,35 @@ def r13_printer_agreement(m):
                            "%s: for the 2003 result %r the 2003 printer gives %r but the 2008 printer gives %r: the same source regenerates "
                            "to different text under the two standards" % (n, items3, t3, t8), m.loc(p8))
     r.ob(n_cls > 0, "%d classes compared" % n_cls)
+    return r
+
+
+def r14_isinstance_overrides(m):
+    """Generalises R2 to all code shared by the two standards: an isinstance test on a 2003 class silently fails under the 2008 grammar
+    when the 2008 class of that name (hand-written override or a freshly generated `_List`) does not derive from the 2003 one."""
+    r = RuleResult("C17.R14", "every isinstance test in the code both standards share names a class whose 2008 counterpart (if it has one) "
+                              "derives from it: otherwise the branch is taken under f2003 and skipped under f2008")
+    r.floor = 30
+    s3, s8 = m.snap["std_classes"]["f2003"], m.snap["std_classes"]["f2008"]
+    for (path, q), f in sorted(m.funcs.items()):
+        if not f.module.startswith("fparser.two") or "Fortran2008" in f.module:
+            continue
+        for c in A.body_nodes(f.node):
+            if not (isinstance(c, ast.Call) and A.dotted(c.func) == "isinstance" and len(c.args) == 2):
+                continue
+            arg = c.args[1]
+            for e in (arg.elts if isinstance(arg, ast.Tuple) else [arg]):
+                if not isinstance(e, ast.Name):
+                    continue
+                k = m.class_of_name(f, e.id)
+                if k is None:
+                    continue
+                r.instances += 1
+                k8 = s8.get(e.id)
+                ok = not (k8 and k8 != k and k == s3.get(e.id) and not m.issub(k8, k))
+                r.ob(ok, "%s: isinstance(.., %s)" % (q, e.id) if r.instances % 10 == 0 else None)
+                if not ok:
+                    r.fail("%s|isinstance|%s" % (q, e.id), "%s tests `%s`, but under the 2008 grammar objects of that rule are instances of %s, "
+                           "which does not derive from the 2003 class: the test is true under f2003 and false under f2008, so the two parsers "
+                           "treat the same source differently" % (q, A.text(c)[:60], k8), m.loc(f, c))
     return r
